@@ -141,6 +141,8 @@ def run_c19(ctx):
     cp = l2.corpus(ctx)
     for h in range(1 if not ctx.thorough() else 10):
         l2.watch_history(ctx, res, cp, "C19", 100 + h)
+    l2.watch_history(ctx, res, cp, "C19", 150, symlinked=True)
+    res.require(["watch_through_a_symlink_pointed_elsewhere"], "L2")
     return res
 
 
